@@ -242,3 +242,38 @@ def keyword_field_agreement(ctx, func):
                 same = v.attr.lstrip("_") == k.arg.lstrip("_")
                 like = any(d.has_member(func.cls, nm) for nm in (k.arg, "_" + k.arg.lstrip("_"), k.arg.lstrip("_")))
                 yield c, k.arg, v.attr, same, like
+
+
+def cross_wired_keywords(ctx, func):
+    """Calls inside `func` that pass `k=v` where k and v are two DIFFERENT parameters of func and the callee (resolved inside the
+    repository) has parameters named k and v as well: the option v is wired into the slot of option k.
+    Yields (call node, k, v, callee qualname)."""
+    import ast as _ast
+    from .index import Class as _Class, Func as _Func
+    params = {p.arg for p in func.all_params}
+    if len(params) < 2:
+        return
+    for c in own_nodes(func.node):
+        if not isinstance(c, _ast.Call) or not c.keywords:
+            continue
+        cands = [(k.arg, k.value.id) for k in c.keywords if k.arg and isinstance(k.value, _ast.Name) and k.value.id != k.arg
+                 and k.arg in params and k.value.id in params]
+        if not cands:
+            continue
+        targets = []
+        try:
+            for t in ctx.res.resolve_call(func, c, by_name=False):
+                if isinstance(t, _Class):
+                    init = t.lookup("__init__")
+                    if init is not None:
+                        targets.append(init)
+                elif isinstance(t, _Func):
+                    targets.append(t)
+        except Exception:
+            targets = []
+        for k, v in cands:
+            for t in targets:
+                names = {p.arg for p in t.all_params}
+                if k in names and v in names:
+                    yield c, k, v, t.qualname
+                    break
